@@ -469,6 +469,8 @@ impl TableStore {
     }
 
     fn add_head(&self, table: &Arc<ReadonlyTable>) -> TableStoreResult<()> {
+        #[cfg(feature = "verif-hooks")]
+        crate::verif_hooks::crash_point("stacked_table.before_add_head");
         std::fs::write(self.dir.join("heads").join(&table.name), "")
             .map_err(TableStoreError::SaveHeads)
     }
@@ -478,7 +480,11 @@ impl TableStore {
         // that we're on a distributed file system where the locking
         // doesn't work. We'll probably end up with two current
         // heads. We'll detect that next time we load the table.
+        #[cfg(feature = "verif-hooks")]
+        crate::verif_hooks::crash_point("stacked_table.before_remove_head");
         std::fs::remove_file(self.dir.join("heads").join(&table.name)).ok();
+        #[cfg(feature = "verif-hooks")]
+        crate::verif_hooks::crash_point("stacked_table.after_remove_head");
     }
 
     fn lock(&self) -> TableStoreResult<FileLock> {
